@@ -49,6 +49,119 @@ thread_local! {
 
 static PROBE_PANICKED: std::sync::atomic::AtomicBool = std::sync::atomic::AtomicBool::new(false);
 
+// ------------------------------------------------------------------------------- adapters
+//
+// The inner future / stream / sink of an adapter is *scripted by the driver*: when the adapter
+// method calls it, it answers the `adPoll` line, then executes the following protocol lines on
+// this thread (inside the adapter's call, i.e. under its local-parent guard) until the line
+// `adEnd <adapter> <result>`, and returns that result to the adapter.
+
+struct ThreadIo {
+    k: usize,
+    rx: mpsc::Receiver<String>,
+    tx: mpsc::Sender<String>,
+    guards: *mut Vec<G>,
+}
+
+thread_local! {
+    static IO: std::cell::RefCell<Option<ThreadIo>> = const { std::cell::RefCell::new(None) };
+}
+
+/// runs protocol lines until `adEnd`; returns its result token
+fn nested_loop() -> String {
+    let (k, guards) = IO.with(|io| {
+        let io = io.borrow();
+        let io = io.as_ref().unwrap();
+        let _ = io.tx.send("ok".into()); // the answer to the `adPoll` line
+        (io.k, io.guards)
+    });
+    loop {
+        let line = IO.with(|io| io.borrow().as_ref().unwrap().rx.recv());
+        let Ok(line) = line else { return "pending".into() };
+        let w: Vec<&str> = line.split_whitespace().collect();
+        if w.first() == Some(&"adEnd") {
+            return w.get(2).unwrap_or(&"pending").to_string();
+        }
+        let r = catch_unwind(AssertUnwindSafe(|| thread_op(k, unsafe { &mut *guards }, &w)));
+        let out = match r {
+            Ok(Some(s)) => s,
+            Ok(None) => "bad-op parse".into(),
+            Err(_) => "panic".into(),
+        };
+        IO.with(|io| {
+            let _ = io.borrow().as_ref().unwrap().tx.send(out);
+        });
+    }
+}
+
+struct Scripted;
+impl std::future::Future for Scripted {
+    type Output = ();
+    fn poll(self: std::pin::Pin<&mut Self>, _cx: &mut std::task::Context<'_>) -> std::task::Poll<()> {
+        match nested_loop().as_str() {
+            "pending" => std::task::Poll::Pending,
+            _ => std::task::Poll::Ready(()),
+        }
+    }
+}
+impl futures_core::Stream for Scripted {
+    type Item = u32;
+    fn poll_next(self: std::pin::Pin<&mut Self>, _cx: &mut std::task::Context<'_>) -> std::task::Poll<Option<u32>> {
+        match nested_loop().as_str() {
+            "pending" => std::task::Poll::Pending,
+            "none" => std::task::Poll::Ready(None),
+            _ => std::task::Poll::Ready(Some(1)),
+        }
+    }
+}
+impl futures_sink::Sink<u32> for Scripted {
+    type Error = ();
+    fn poll_ready(self: std::pin::Pin<&mut Self>, _cx: &mut std::task::Context<'_>) -> std::task::Poll<Result<(), ()>> {
+        sink_result(nested_loop())
+    }
+    fn start_send(self: std::pin::Pin<&mut Self>, _item: u32) -> Result<(), ()> {
+        if nested_loop() == "err" { Err(()) } else { Ok(()) }
+    }
+    fn poll_flush(self: std::pin::Pin<&mut Self>, _cx: &mut std::task::Context<'_>) -> std::task::Poll<Result<(), ()>> {
+        sink_result(nested_loop())
+    }
+    fn poll_close(self: std::pin::Pin<&mut Self>, _cx: &mut std::task::Context<'_>) -> std::task::Poll<Result<(), ()>> {
+        sink_result(nested_loop())
+    }
+}
+fn sink_result(r: String) -> std::task::Poll<Result<(), ()>> {
+    match r.as_str() {
+        "pending" => std::task::Poll::Pending,
+        "err" => std::task::Poll::Ready(Err(())),
+        _ => std::task::Poll::Ready(Ok(())),
+    }
+}
+
+enum Ad {
+    Fut(std::pin::Pin<Box<fastrace::future::InSpan<Scripted>>>),
+    Eop(std::pin::Pin<Box<fastrace::future::EnterOnPoll<Scripted>>>),
+    Stream(std::pin::Pin<Box<fastrace_futures::InSpan<Scripted>>>),
+    Sink(std::pin::Pin<Box<fastrace_futures::InSpan<Scripted>>>),
+}
+
+static ADAPTERS: Mutex<Option<HashMap<String, Ad>>> = Mutex::new(None);
+
+/// `cycleAtPush n`: the n-th ring push from now (by any thread) is preceded by one complete
+/// collector cycle, run synchronously at the `SenderBeforePush` hook point
+static CYCLE_AT_PUSH: Mutex<Option<usize>> = Mutex::new(None);
+static INLINE_CYCLES: Mutex<usize> = Mutex::new(0);
+
+fn noop_waker() -> std::task::Waker {
+    use std::task::RawWaker;
+    use std::task::RawWakerVTable;
+    fn clone(_: *const ()) -> RawWaker {
+        RawWaker::new(std::ptr::null(), &VT)
+    }
+    fn noop(_: *const ()) {}
+    static VT: RawWakerVTable = RawWakerVTable::new(clone, noop, noop, noop);
+    unsafe { std::task::Waker::from_raw(RawWaker::new(std::ptr::null(), &VT)) }
+}
+
 struct Probe {
     held: Option<Span>,
 }
@@ -420,6 +533,73 @@ fn thread_op(k: usize, guards: &mut Vec<G>, w: &[&str]) -> Option<String> {
                 }
             }
         }
+        ["adNew", a, kind, arg] => {
+            use fastrace::future::FutureExt as _;
+            let ad = match *kind {
+                "enterOnPoll" => Ad::Eop(Box::pin(Scripted.enter_on_poll(str_of_hex(arg)?))),
+                _ => {
+                    let Some(sp) = take_span(arg) else { return Some("bad-op unknown span".into()) };
+                    match *kind {
+                        "inSpan" => Ad::Fut(Box::pin(Scripted.in_span(sp))),
+                        "stream" => Ad::Stream(Box::pin(fastrace_futures::StreamExt::in_span(Scripted, sp))),
+                        "sink" => Ad::Sink(Box::pin(fastrace_futures::SinkExt::<u32>::in_span(Scripted, sp))),
+                        _ => return None,
+                    }
+                }
+            };
+            ADAPTERS.lock().unwrap().get_or_insert_with(HashMap::new).insert(a.to_string(), ad);
+            "ok".into()
+        }
+        ["adPoll", a, call] => {
+            let Some(mut ad) = ADAPTERS.lock().unwrap().get_or_insert_with(HashMap::new).remove(*a) else {
+                return Some("bad-op unknown adapter".into());
+            };
+            IO.with(|io| io.borrow_mut().as_mut().unwrap().guards = guards as *mut Vec<G>);
+            let waker = noop_waker();
+            let mut cx = std::task::Context::from_waker(&waker);
+            {
+                use futures_core::Stream as _;
+                use futures_sink::Sink as _;
+                use std::future::Future as _;
+                match (&mut ad, *call) {
+                    (Ad::Fut(f), "poll") => {
+                        let _ = f.as_mut().poll(&mut cx);
+                    }
+                    (Ad::Eop(f), "poll") => {
+                        let _ = f.as_mut().poll(&mut cx);
+                    }
+                    (Ad::Stream(f), "poll_next") => {
+                        let _ = f.as_mut().poll_next(&mut cx);
+                    }
+                    (Ad::Sink(f), "poll_ready") => {
+                        let _ = f.as_mut().poll_ready(&mut cx);
+                    }
+                    (Ad::Sink(f), "start_send") => {
+                        let _ = f.as_mut().start_send(7);
+                    }
+                    (Ad::Sink(f), "poll_flush") => {
+                        let _ = f.as_mut().poll_flush(&mut cx);
+                    }
+                    (Ad::Sink(f), "poll_close") => {
+                        let _ = f.as_mut().poll_close(&mut cx);
+                    }
+                    _ => {
+                        ADAPTERS.lock().unwrap().get_or_insert_with(HashMap::new).insert(a.to_string(), ad);
+                        return Some("bad-op call does not fit the adapter".into());
+                    }
+                }
+            }
+            ADAPTERS.lock().unwrap().get_or_insert_with(HashMap::new).insert(a.to_string(), ad);
+            // this is the answer to the `adEnd` line (the `adPoll` line was answered by the inner)
+            "ok".into()
+        }
+        ["adDrop", a] => match ADAPTERS.lock().unwrap().get_or_insert_with(HashMap::new).remove(*a) {
+            Some(ad) => {
+                drop(ad);
+                "ok".into()
+            }
+            None => "bad-op unknown adapter".into(),
+        },
         ["tlsProbe", v] => {
             let held = take_span(v);
             PROBE.with(|p| *p.borrow_mut() = Some(Probe { held }));
@@ -450,7 +630,10 @@ fn spawn_logical(k: usize) -> Logical {
         .name(format!("logical-{}", k))
         .spawn(move || {
             let mut guards: Vec<G> = vec![];
-            while let Ok(line) = trx.recv() {
+            IO.with(|io| {
+                *io.borrow_mut() = Some(ThreadIo { k, rx: trx, tx: ttx.clone(), guards: &mut guards as *mut Vec<G> })
+            });
+            while let Ok(line) = IO.with(|io| io.borrow().as_ref().unwrap().rx.recv()) {
                 let w: Vec<&str> = line.split_whitespace().collect();
                 if w.as_slice() == ["exit"] {
                     let r = catch_unwind(AssertUnwindSafe(|| {
@@ -511,6 +694,27 @@ fn start_collector() -> Collector {
         let go_rx = go_rx.clone();
         let stepping = stepping.clone();
         verif::set_hook(Some(Arc::new(move |p: verif::Point| {
+            if p == verif::Point::SenderBeforePush {
+                let fire = {
+                    let mut c = CYCLE_AT_PUSH.lock().unwrap();
+                    match c.as_mut() {
+                        Some(n) if *n <= 1 => {
+                            *c = None;
+                            true
+                        }
+                        Some(n) => {
+                            *n -= 1;
+                            false
+                        }
+                        None => false,
+                    }
+                };
+                if fire {
+                    verif::run_collector_cycle();
+                    *INLINE_CYCLES.lock().unwrap() += 1;
+                }
+                return;
+            }
             if !IS_COLLECTOR.with(|c| c.get()) || !*stepping.lock().unwrap() {
                 return;
             }
@@ -656,6 +860,25 @@ fn run_case() {
                         }
                         Err(_) => "timeout".into(),
                     }
+                }
+            }
+            ["cycleAtPush", n] => {
+                *CYCLE_AT_PUSH.lock().unwrap() = n.parse().ok();
+                "ok".into()
+            }
+            ["inlineReport"] => {
+                // the report of a cycle that ran inside a sender's hook
+                let n = std::mem::take(&mut *INLINE_CYCLES.lock().unwrap());
+                if n == 0 {
+                    "rep none".into()
+                } else {
+                    let mut all = vec![];
+                    for _ in 0..n {
+                        if let Ok(rs) = rep_rx.recv_timeout(OP_TIMEOUT) {
+                            all.extend(rs);
+                        }
+                    }
+                    format!("rep {}", show_records(&all, true))
                 }
             }
             ["procstats"] => {
